@@ -27,7 +27,7 @@ func init() {
 			"resolution 0 (alias of 960), resolutions above 32767 (clamped) and more than 65535 tracks are outside the stated domain",
 			"messages are non-empty smf.Message values: channel messages, FF type VLQ payload metas in canonical form, F0/F7 sysex and escape messages",
 		},
-		Require: []string{"histories", "smpte_files", "rs_elisions_by_writer", "delta_ge_2^28", "early_close", "add_after_close", "variadic_add", "unclosed_tracks", "events_compared", "norunningstatus_files", "file_roundtrips", "read_modify_write_values", "concurrent_roundtrips"},
+		Require: []string{"histories", "smpte_files", "rs_elisions_by_writer", "delta_ge_2^28", "early_close", "add_after_close", "variadic_add", "unclosed_tracks", "events_compared", "norunningstatus_files", "file_roundtrips", "read_modify_write_values", "concurrent_roundtrips", "vlq_width_combinations"},
 		Run:     runC01,
 	})
 }
@@ -367,6 +367,38 @@ func runC01(c *mon.Ctx) {
 		c01Check(c, a, fmt.Sprintf("history %d", i))
 		if i < 2 {
 			c.Sample("history", a.desc)
+		}
+	})
+
+	// every width of the delta VLQ (1..5 bytes) combined with every width of the length VLQ (1..4 bytes)
+	widthDeltas := []uint32{0, 128, 16384, 2097152, 1 << 28, 1<<32 - 1}
+	widthLens := []int{0, 128, 16384, 2097152}
+	c.Each("vlq-width-product", int64(len(widthDeltas)*len(widthLens)), func(i int64, r *mon.Rand) {
+		d := widthDeltas[int(i)/len(widthLens)]
+		n := widthLens[int(i)%len(widthLens)]
+		p := make([]byte, n)
+		for j := 0; j < n; j += 997 {
+			p[j] = byte(j) & 0x7F
+		}
+		for _, nors := range []bool{false, true} {
+			a := &apiValue{s: smf.NewSMF1(), sh: &ref.File{Format: 1, Division: 960}}
+			a.s.NoRunningStatus = nors
+			var tr smf.Track
+			var sh []ref.Ev
+			for _, m := range [][]byte{append(append([]byte{0xF0}, p...), 0xF7), append([]byte{0xF7}, p...), ref.Meta(0x01, p), ref.Meta(0x7F, p), {0x90, 1, 1}} {
+				tr.Add(d, m)
+				sh = append(sh, ref.Ev{Delta: d, Msg: m})
+			}
+			tr.Close(d)
+			sh = append(sh, ref.Ev{Delta: d, Msg: ref.EOT})
+			a.s.Add(tr)
+			a.sh.Tracks = [][]ref.Ev{sh}
+			if d >= 1<<28 {
+				a.bigDelta += 6
+			}
+			a.log("delta %d (VLQ of %d bytes) x payload of %d bytes (length VLQ of %d bytes), NoRunningStatus=%v", d, ref.VLQLen(d), n, ref.VLQLen(uint32(n)), nors)
+			c01Check(c, a, "vlq width product")
+			c.Count("vlq_width_combinations", 1)
 		}
 	})
 
